@@ -84,6 +84,7 @@ def extract(config="mip04", repo=None, quiet=False):
     try:
         out = facts_dir(config, repo)
         if all(os.path.exists(os.path.join(out, c + ".json")) for c in CRATES):
+            os.utime(os.path.dirname(out))
             return out
         ensure_driver()
         t0 = time.time()
@@ -126,7 +127,7 @@ def extract(config="mip04", repo=None, quiet=False):
             sys.stderr.write("[facts] extracted %s in %.1fs -> %s\n" % (config, time.time() - t0, out))
         # keep the cache small: retain the 6 most recent tree hashes
         roots = sorted(glob.glob(os.path.join(CACHE, "facts", "*")), key=os.path.getmtime)
-        for old in roots[:-6]:
+        for old in roots[:-12]:
             shutil.rmtree(old, ignore_errors=True)
         return out
     finally:
